@@ -97,8 +97,10 @@ fn check_pulls(what: &str, log: &[usize], vis: usize, total: usize, panicked: bo
             continue;
         }
         if nones > 0 {
-            // polled on after the end: tolerated only if nothing of it is used (checked by the differential)
-            continue;
+            // the source had ended: polling it again is harmless only as long as it keeps answering
+            // `None`; an item pulled now is taken away from the caller, who may go on using the source
+            violate("pull-log", format!("{what}: the source was polled again after it had ended and item {p} was pulled from it"));
+            return;
         }
         if *p != expect {
             violate("pull-log", format!("{what}: source pulled out of order (position {p}, expected {expect})"));
